@@ -40,6 +40,8 @@ def check(run):
                 seq.append(f"pverify {hex(i)} sib {k} {hex(rand_fr(rng))}")
                 seq.append(f"pverify {hex(i)} dir {k} 0x0")
             seq.append(f"pverify {hex(i)} leaf 0 {hex(rand_fr(rng))}")
+            seq.append(f"pverify {hex(i)} cut 0 0x0")                        # a path one element short / one element long never opens the root
+            seq.append(f"pverify {hex(i)} ext 0 {hex(rand_fr(rng))}")
         return seq
     for backend in treegen.BACKENDS:
         seqs = []
@@ -49,6 +51,30 @@ def check(run):
         for k in range(1 if quick else 12):
             seqs.append(mk(backend, rng.choice([10, 20]), rng.randint(2, 5)))
         run.differential(f"proof-{backend}", seqs)
+    # ---- after ONE range write longer than every internal batching threshold (2^14+5 leaves; thorough also 120000, more than 8 MiB of
+    #      node entries): proofs of a stride of positions and a digest of every node (implementation vs model)
+    bigp = []
+    for backend in (["pm"] if quick else treegen.BACKENDS):
+        for depth, n in ([(15, 2**14 + 5)] if quick else [(15, 2**14 + 5), (17, 120000)]):
+            seq = [f"tree new {backend} {depth}", f"range 0x1 gen:{hex(n)}:0x77", "root", "digest"]
+            seq += [f"proof {hex(i)}" for i in sorted({0, 1, n // 2, n - 1, n, n + 1} | {rng.randrange(n) for _ in range(12 if quick else 60)})]
+            bigp.append(seq)
+    run.differential("proof-after-long-range", bigp, spec=False, shrink=False)
+    zkh = run.harness()
+    if quick:
+        # one write of 106 496 leaves (more than 8 MiB of node entries in one storage batch) on the persistent tree, compared with the
+        # sparse in-memory tree on the same lines — the model takes a minute for this size and runs it in the thorough tier
+        n = 106496
+        lines = ["range 0x1 gen:%s:0x77" % hex(n), "root", "next", "digest"] + [f"proof {hex(i)}" for i in sorted({0, 1, n // 2, n, n + 1} | {rng.randrange(n) for _ in range(40)})]
+        outs = {b: core.run_impl(zkh, [f"tree new {b} 17"] + lines, timeout=3000)[1:] for b in ("pm", "opt")}
+        run.count_case(("long-range-impl", n))
+        run.cov["traces_validated_against_impl"] += 1
+        for j, l in enumerate(lines):
+            a, b = outs["pm"][j], outs["opt"][j]
+            if a != b or (l.startswith("proof ") and ("recomputes=true" not in a or not a.endswith("accepted"))):
+                run.violation({"property": run.pid, "kind": "impl-vs-spec", "stream": "long-range-pm-vs-opt", "ops": ["tree new pm|opt 17"] + lines[: j + 1],
+                               "detail": f"after one range write of {n} leaves the persistent and the sparse tree differ on `{l}` (or a proof does not recompute the root): pm={a[-90:]} opt={b[-90:]}"})
+                break
     # ---- trees created with an initial leaf value other than the hasher's default leaf (`ZerokitMerkleTree::new(depth, initial, …)`):
     #      deletions write the default leaf, never-written positions hold the initial one. No model instance exists for this
     #      configuration; the oracle is the property itself (every proof recomputes the tree's root from the stored leaf and passes the
